@@ -3155,7 +3155,7 @@ CLAUSES = [
            desc='E(a1+k1, a2+k2) = E(a1, a2) for integer periods; nearest mode equals the exact nearest-sample table'),
     Clause('coords', with_units(keyed_f16(keyed_inplane_assert(oracle_coords))), G.coords_cases, quick=1020, thorough=20000,
            min_share={'special_q': 0.12, 'near_plane_pos': 0.2, 'near_plane_xvect': 0.08, 'units': 0.08, 'units_pre_default': 0.035,
-                      'units_named': 0.05, 'units_seed': 0.015, 'units_SI': 0.006, 'shape_sym': 0.015, 'shape_near': 0.015,
+                      'units_named': 0.03, 'units_seed': 0.01, 'units_SI': 0.006, 'shape_sym': 0.015, 'shape_near': 0.015,
                       'nt': 0.45, 'oblique': 0.4, 'npts3': 0.15, 'xvect': 0.18, 'scalar': 0.18,
                       'history': 0.25, 'history_reload_set': 0.08, 'history_reload_model': 0.08, 'history_swap': 0.08, 'history_other_mode': 0.04,
                       'form_ro': 0.06, 'form_strided': 0.05, 'form_tuple': 0.04, 'form_npscalar': 0.04, 'form_int': 0.05, 'int_typed': 0.04,
@@ -3164,7 +3164,7 @@ CLAUSES = [
            desc='a12_to_pos, pos_to_xy, xy_to_pos, a12_to_xy, pos_to_a12(single) against independent basis algebra; mutual inverses'),
     Clause('coords_multi', with_units(keyed_f16(keyed_inplane_assert(oracle_coords_multi))), G.coords_cases, quick=1020, thorough=20000,
            min_share=_BlockedGuard({'special_q': 0.12, 'near_plane_pos': 0.2, 'near_plane_xvect': 0.08, 'units': 0.08,
-                                    'units_pre_default': 0.035, 'units_named': 0.05, 'units_seed': 0.015, 'units_SI': 0.006,
+                                    'units_pre_default': 0.035, 'units_named': 0.03, 'units_seed': 0.01, 'units_SI': 0.006,
                                     'shape_sym': 0.015, 'shape_near': 0.015, 'nt': 0.3, 'oblique': 0.25, 'npts3': 0.1, 'npts7': 0.06, 'altvect': 0.18, 'smooth': 0.15, 'nearest': 0.2,
                                     'history': 0.25, 'history_reload_set': 0.1, 'history_reload_model': 0.08, 'history_swap': 0.1,
                                     'history_other_mode': 0.05,
@@ -3233,7 +3233,7 @@ CLAUSES = [
                 'equal to the call with that row alone; E_gsf / delta of the array equal every row alone'),
     Clause('ledger', oracle_ledger, G.ledger_cases, quick=300, thorough=6000,
            # (shares over the cases that do not meet an open finding: on the unchanged tree about half of the cases do)
-           min_share={'op_call_same': 0.2, 'op_overwrite_in': 0.15, 'op_overwrite_out': 0.1, 'op_overwrite_query': 0.12, 'ledger_grew': 0.25, 'held_arr': 0.4},
+           min_share={'op_call_same': 0.15, 'op_overwrite_in': 0.15, 'op_overwrite_out': 0.1, 'op_overwrite_query': 0.08, 'ledger_grew': 0.2, 'held_arr': 0.4},
            desc='result ledger and caller-side mutation for GammaSurface: everything returned is kept and re-judged bit for bit, every answer is read '
                 'again, after later calls on this and another surface and after the caller overwrote / re-defined / re-used what it handed in and got back'),
     Clause('ledger_pn', keyed_inplane_assert(oracle_ledger_pn), G.ledger_pn_cases, quick=200, thorough=4000,
